@@ -2,6 +2,7 @@ package gosym
 
 import (
 	"fmt"
+	"os"
 	"go/constant"
 	"go/token"
 	"go/types"
@@ -641,6 +642,9 @@ func (ex *Exec) tryMerge(fr *Frame, b *ssa.BasicBlock, cond *Term, mi *mergeInfo
 					}
 				}
 			}
+			if traceOn {
+				fmt.Fprintf(os.Stderr, "[trace] merge failed at %s: %v\n", ex.pos(ex.curPos), r)
+			}
 			// roll back
 			for o, s := range spec.saved {
 				o.cells, o.log, o.limit = s.cells, s.log, s.limit
@@ -661,6 +665,9 @@ func (ex *Exec) tryMerge(fr *Frame, b *ssa.BasicBlock, cond *Term, mi *mergeInfo
 		}
 		ex.guard = arm.g
 		for _, in := range arm.blk.Instrs {
+			if _, isJump := in.(*ssa.Jump); isJump {
+				continue
+			}
 			ex.instrs++
 			ex.step(fr, in)
 		}
@@ -1024,8 +1031,8 @@ func (ex *Exec) step(fr *Frame, in ssa.Instruction) {
 		}
 		n := ex.toInt64(ex.get(fr, x.Len).(*Term), x.Len.Type())
 		cp := ex.toInt64(ex.get(fr, x.Cap).(*Term), x.Cap.Type())
-		nn := ex.concretize(n, 4096, "make([]T, n)")
-		cc := ex.concretize(cp, 4096, "make([]T, n, cap)")
+		nn := ex.concretize(n, 1<<17, "make([]T, n)")
+		cc := ex.concretize(cp, 1<<17, "make([]T, n, cap)")
 		et := x.Type().Underlying().(*types.Slice).Elem()
 		o := ex.newObj(int64(cc)*sizeof(et), "makeslice@"+fr.fn.Name())
 		fr.locals[x] = Slice{Ptr{obj: o, off: c.Const(64, 0)}, c.Const(64, nn), c.Const(64, cc)}
